@@ -362,22 +362,21 @@ def is_body(r):
 
 
 def can_wrap(r):
-    return r[0] in 'cSsUI'
-
-
-def raises_h(s):
-    return any(r[0] == 'I' and r[2] != 0 and not raises_h(r[3]) and not hard(r[3]) and imp_trav(r[3]) for r in s)
+    return r[0] in 'cSs'
 
 
 def kept(r):
-    return raises_h(r[3]) or (r[2] != 0 and hard(r[3]))
+    """`kept q sub`: a media-restricted loaded import whose flat sheet holds anything but comments and style rules"""
+    return r[2] != 0 and hard(r[3])
 
 
 def hard(s):
+    """`flatHard`: the flat sheet of s has an @namespace rule, an @import rule, or a body rule @media is not given"""
     for r in s:
-        if r[0] in 'NMpfu':
+        if r[0] in 'NMpfuU':
             return True
-        if r[0] == 'I' and not kept(r) and (r[2] != 0 or hard(r[3])):
+        if r[0] == 'I' and (r[2] != 0 or hard(r[3])):
+            # kept: an @import rule; restricted and wrapped: an @media block; unrestricted: what its flat sheet holds
             return True
     return False
 
@@ -412,7 +411,7 @@ def body_trav(s):
 
 
 def oracle(case, _e=None):
-    """resolve_hierarchy_outcome / resolve_order / resolve_imports / resolve_arrangement / resolve_idempotent
+    """resolve_never_hierarchy / resolve_order / resolve_imports / resolve_arrangement / resolve_idempotent
     evaluated on the real result"""
     if case[0] == 'twice':
         _, _, _, tin2, got2 = evaluate(('tree', case[1]))
@@ -424,11 +423,9 @@ def oracle(case, _e=None):
     if got == 'raised nomod':
         return ''
     if got == 'raised hierarchy':
-        return '' if raises_h(tree) else 'resolveImports raised HierarchyRequestErr but the tree predicate says it does not: %s' % tin
+        return 'resolve_never_hierarchy fails on the real code: resolveImports raised HierarchyRequestErr: %s' % tin
     if not got.startswith('ok '):
         return 'unexpected outcome %r for %s' % (got, tin)
-    if raises_h(tree):
-        return 'the tree predicate says HierarchyRequestErr, the real call returned: %s' % tin
     res = parse_tokens(got[3:])
     if [r for r in res if is_body(r)] != body_trav(tree):
         return 'resolve_order fails on the real result: %s -> %s' % (tin, got)
@@ -453,14 +450,15 @@ def observations():
 
     def parse(top, texts, deny=()):
         return cp.CSSParser(fetcher=lambda u: (None, texts[u]) if u in texts and u not in deny else None).parseString(top, href=TOP)
-    # 1. HierarchyRequestErr leaves resolveImports
+    # 1. a media-restricted import of a sheet with an @import that stays is kept (it made resolveImports raise
+    #    HierarchyRequestErr from CSSMediaRule.add before the repair cdf8fa7)
     sh = parse('@import "b.css" print; x{left:0}', {'http://h/b.css': '@import "n.css"; b{top:0}'})
     try:
-        cp.resolveImports(sh)
-        out.append('1: no exception (changed)')
-    except xml.dom.HierarchyRequestErr as e:
+        flat = cp.resolveImports(sh)
         out.append('1: resolveImports(\'@import "b.css" print; x{left:0}\') with b.css = \'@import "n.css"; b{top:0}\' and n.css not '
-                   'loadable raises HierarchyRequestErr (%s) instead of keeping the rule' % str(e)[:70])
+                   'loadable keeps the rule, as the docstring says: %s' % ' '.join(r.cssText.replace('\n', ' ') for r in flat.cssRules))
+    except xml.dom.HierarchyRequestErr as e:
+        out.append('1: HierarchyRequestErr leaves resolveImports again (changed): %s' % str(e)[:70])
     # 2. NoModificationAllowedErr leaves resolveImports
     sh = parse('@import "a.css"; @namespace p "u1"; p|x{left:0}', {'http://h/a.css': '@namespace p "u2"; p|y{top:0}'})
     try:
